@@ -168,9 +168,11 @@ def _default_abscissae(x, num):
 
 def _steps_arg(inp):
     st = inp["steps"]
+    cont = inp.get("container", "list")
+    if isinstance(st, int) and cont in ("np.int64", "np.int32"):
+        return getattr(np, cont[3:])(st)  # a NumPy integer is a number of abscissae just like a built-in int
     if st is None or isinstance(st, int):
         return st
-    cont = inp.get("container", "list")
     if cont == "tuple":
         return tuple(st)
     if cont == "ndarray":
@@ -206,8 +208,8 @@ def _check_dc(inp, T, case):
     steps = _steps_arg(inp)
     if steps is None:
         absc, is_default, num = _default_abscissae(x, 10), True, 10
-    elif isinstance(steps, int):
-        absc, is_default, num = _default_abscissae(x, steps), True, steps
+    elif isinstance(steps, (int, np.integer)):
+        absc, is_default, num = _default_abscissae(x, int(steps)), True, int(steps)
     else:
         absc, is_default, num = np.asarray(steps, dtype=float), False, len(steps)
     G = "design conditions"
@@ -223,6 +225,16 @@ def _check_dc(inp, T, case):
     dc = np.asarray(dc, dtype=float).reshape(-1, 2)
     T.check(np.array_equal(np.asarray(contour.coordinates, dtype=float), before), G, case, "dc.call: contour unchanged", "coordinates were modified", inp)
 
+    if inp.get("degenerate"):
+        # abscissae exactly on a vertical edge / on a vertex: no unique crossing set, but whatever is returned has to be
+        # at a requested abscissa and ON the polygon
+        T.check(len(dc) > 0 and all(any(float(g) == float(a) for a in absc) for g in dc[:, 0]), G, case,
+                "dc.abscissa: each design condition is at a requested abscissa", f"returned abscissae {dc[:, 0].tolist()} requested {absc.tolist()}", inp)
+        for k in range(len(dc)):
+            d = _dist_to_polyline(dc[k, 0], dc[k, 1], x, y)
+            T.check(d <= TOL * ext, G, case, "dc.on: each design condition lies on the contour polygon",
+                    f"point {dc[k].tolist()} is {d:.3g} away from the polygon (extent {ext:.3g})", inp)
+        return
     # reference per abscissa
     ref = []
     for a in absc:
@@ -446,6 +458,16 @@ def _fixed_scenarios():
                      {"type": "dc", "source": {"kind": "poly", "coords": pos}, "steps": 2, "container": "list", "swap": swap}))
     scen.append(("dc/fixed-ellipse/steps=list/swap=0/mc=2/ord=pos",
                  {"type": "dc", "source": {"kind": "poly", "coords": pos}, "steps": [4.1, 5.3, 6.2, 99.0], "container": "list", "swap": False}))
+    # the number of abscissae given as a NumPy integer
+    for cont in ("np.int64", "np.int32"):
+        scen.append((f"dc/fixed-ellipse/steps=npint/swap=0/mc=2/ord=pos",
+                     {"type": "dc", "source": {"kind": "poly", "coords": pos}, "steps": 5, "container": cont, "swap": False}))
+    # abscissae exactly on a vertical edge and on a vertex of a polygon lying below 0
+    house = [[1.0, -5.0], [4.0, -5.0], [4.0, -2.0], [2.5, -1.0], [1.0, -2.0]]
+    for swap in (False, True):
+        src = house if not swap else [[p[1], p[0]] for p in house]
+        scen.append((f"dc/fixed-house/steps=list/swap={int(swap)}/on-vertical-edge",
+                     {"type": "dc", "source": {"kind": "poly", "coords": src}, "steps": [4.0, 2.5, 1.0, 3.0], "container": "list", "swap": swap, "degenerate": True}))
     return scen
 
 
